@@ -465,6 +465,8 @@ Proof.
   - destruct s; cbn in HS; inversion HS; lia.
   - cbn [wf_type] in W. apply andb_true_iff in W. destruct W as [W1 W2]. apply Z.leb_le in W1.
     destruct (serial_size t) as [k|]; [|discriminate]. inversion HS; subst. specialize (IHt k W2 eq_refl). nia.
+  - cbn [wf_type] in W. apply andb_true_iff in W. destruct W as [_ W2]. apply IHt; assumption.
+  - cbn [wf_type] in W. apply andb_true_iff in W. destruct W as [_ W2]. apply IHt; assumption.
 Qed.
 
 (* ------------------------------------------------------------------ the main induction *)
@@ -571,16 +573,16 @@ Proof.
     cbn [wf_type] in W. apply andb_true_iff in W. destruct W as [W0 W]. apply negb_true_iff in W0.
     assert (Hs' : serialize pv t v = Some bs) by (destruct v; [congruence | | | | | | | |]; exact Hs).
     assert (Y' : py_repr t v = true) by (destruct v; [congruence | | | | | | | |]; exact Y).
-    destruct (IHt pv v bs W Y' Hn Hs') as [D [E _]].
+    destruct (IHt pv v bs W Y' Hn Hs') as [D [E SZ]].
     cbn [deserialize]. rewrite (wrap_from_des _ _ _ E), D.
-    split; [f_equal; destruct v; try reflexivity; congruence | split; [intros _; auto | cbn [serial_size]; discriminate]].
+    split; [f_equal; destruct v; try reflexivity; congruence | split; [intros _; auto | cbn [serial_size]; exact SZ]].
   - (* reversed *)
     cbn [wf_type] in W. apply andb_true_iff in W. destruct W as [W0 W]. apply negb_true_iff in W0.
     assert (Hs' : serialize pv t v = Some bs) by (destruct v; [congruence | | | | | | | |]; exact Hs).
     assert (Y' : py_repr t v = true) by (destruct v; [congruence | | | | | | | |]; exact Y).
-    destruct (IHt pv v bs W Y' Hn Hs') as [D [E _]].
+    destruct (IHt pv v bs W Y' Hn Hs') as [D [E SZ]].
     cbn [deserialize]. rewrite (wrap_from_des _ _ _ E), D.
-    split; [f_equal; destruct v; try reflexivity; congruence | split; [intros _; auto | cbn [serial_size]; discriminate]].
+    split; [f_equal; destruct v; try reflexivity; congruence | split; [intros _; auto | cbn [serial_size]; exact SZ]].
 Qed.
 
 (* ------------------------------------------------------------------ statements used by Props/C01.v *)
